@@ -93,7 +93,7 @@ Definition disasm_instr (p : prog) (offset : N) (r : bytes) : option (bytes * N)
 (* disasm(): header, then instruction by instruction; Some lines | None (panic) *)
 Fixpoint disasm_loop (fuel : nat) (p : prog) (offset : N) (r : bytes) (acc : list bytes) : option (list bytes) :=
   match r with
-  | [] => Some (rev acc)
+  | [] => Some (frev acc)
   | _ =>
     match fuel with
     | O => None
@@ -115,7 +115,7 @@ Definition disasm (p : prog) : option (list bytes) :=
 (* trace hook: printStack + disasmInstr(pc) *)
 Definition trace_lines (p : prog) (m : vm) : list (otag * bytes) :=
   let st := bs "             " ++ dec_of_N (tos m) ++ bs ": " ++
-            flat_map (fun v => bs "[ " ++ fmt_v v ++ bs " ]") (rev (stack m)) ++ [10] in
+            flat_map (fun v => bs "[ " ++ fmt_v v ++ bs " ]") (frev (stack m)) ++ [10] in
   match disasm_instr p (pc m) (rest m) with
   | Some (line, _) => [(OTrace, line); (OTrace, st)]        (* newest first *)
   | None => [(OTrace, bs "<disasm panic>"); (OTrace, st)]
@@ -150,9 +150,9 @@ Definition parse_chunks (name : bytes) (chunks : list bytes) : parse_result :=
   let '(ts, l) := lex chunks in
   let s := parse_tokens ts in
   {| pr_ok := negb (hadError s);
-     pr_prog := {| g_name := name; g_code := rev (code s); g_consts := rev (consts s);
-                   g_pos := rev (positions s); g_lfs := l |};
-     pr_diags := rev (log s);
+     pr_prog := {| g_name := name; g_code := frev (code s); g_consts := frev (consts s);
+                   g_pos := frev (positions s); g_lfs := l |};
+     pr_diags := frev (log s);
      pr_stats := {| ps_tokens := st_tokens s; ps_localMax := st_localMax s; ps_depthMax := st_depthMax s;
                     ps_constants := nconsts s; ps_ops := st_ops s; ps_code := ncode s |};
      pr_oof := oof s; pr_panic := ppanic s |}.
@@ -177,8 +177,8 @@ Definition execute (p : prog) (trace stats : bool) : run_result :=
   let tr := if trace then trace_lines p else (fun _ => []) in
   let '(m, r) := run_fuel (run_bound p) p tr (init_vm p) in
   let xs := if stats then map (fun l => (OStats, l)) (xstats_lines m) else [] in
-  {| rr_out := rev (vout m) ++ xs; rr_blocks := rev (result m); rr_binding := bind_ m;
-     rr_warn := rev (vwarn m); rr_res := r; rr_vm := m |}.
+  {| rr_out := frev (vout m) ++ xs; rr_blocks := frev (result m); rr_binding := bind_ m;
+     rr_warn := frev (vwarn m); rr_res := r; rr_vm := m |}.
 
 Inductive ioutcome :=
 | IParseErr (diags : list diag) (out : list (otag * bytes))
